@@ -2203,7 +2203,7 @@ class Deb822NoDuplicateFieldsParagraphElement(Deb822ParagraphElement):
         self._kvpair_elements[key] = value
         self._kvpair_order.append(key)
         if original_value is not None:
-            original_value.parent_element = None
+            original_value.clear_parent_if_parent(self)
         value.parent_element = self
 
     def sort_fields(self, key=None):
@@ -2517,7 +2517,7 @@ class Deb822DuplicateFieldsParagraphElement(Deb822ParagraphElement):
 
         # Replace the value of the existing node plus do a little dance
         # for the parent element part.
-        node.value.parent_element = None
+        node.value.clear_parent_if_parent(self)
         value.parent_element = self
         node.value = value
 
@@ -2526,7 +2526,7 @@ class Deb822DuplicateFieldsParagraphElement(Deb822ParagraphElement):
             for n in original_nodes[1:]:
                 if n.value is not value:
                     # (the new value may be one of the later occurrences)
-                    n.value.parent_element = None
+                    n.value.clear_parent_if_parent(self)
                 self._kvpair_order.remove_node(n)
         elif not replace_all:
             # The new value may be another occurrence of the field: an element
@@ -2543,7 +2543,7 @@ class Deb822DuplicateFieldsParagraphElement(Deb822ParagraphElement):
         if name_token is None and idx is None:
             # Remove all case
             for node in field_list:
-                node.value.parent_element = None
+                node.value.clear_parent_if_parent(self)
                 self._kvpair_order.remove_node(node)
             del self._kvpair_elements[key]
             return
@@ -2567,7 +2567,7 @@ class Deb822DuplicateFieldsParagraphElement(Deb822ParagraphElement):
             del self._kvpair_elements[key]
         else:
             field_list.remove(node)
-        node.value.parent_element = None
+        node.value.clear_parent_if_parent(self)
         self._kvpair_order.remove_node(node)
 
     def sort_fields(self, key=None):
